@@ -181,10 +181,19 @@ class World:
             for gi, g in enumerate(dep["grps"], start=1):
                 if g["dev"] == dname and gdefs[gi] is not None:
                     ns["grp%d" % gi] = gdefs[gi]
+            # handlers: one method per entry, except that entries marked `stack` share the method of the previous entry
+            # (one handler attached to several elements: stacked @on decorators, or one @on with a list of sources)
+            groups: List[List[int]] = []
             for hi, h in enumerate(dep["hs"], start=1):
                 if dep["vecs"][h["v"] - 1]["dev"] != dname:
                     continue
-                ns["h%03d" % hi] = self._handler(hi, h)
+                if h.get("stack") and groups and self._same_shape(dep["hs"][groups[-1][0] - 1], h) \
+                        and all((dep["hs"][g - 1]["v"], dep["hs"][g - 1]["e"]) != (h["v"], h["e"]) for g in groups[-1]):
+                    groups[-1].append(hi)
+                else:
+                    groups.append([hi])
+            for gi, g in enumerate(groups):
+                ns["h%03d" % g[0]] = self._handler_group(g, listform=(gi % 2 == 1))
             # inheritance: the groups of a device may be spread over a chain of base classes (depth <= 3)
             chain = dep.get("inherit", {}).get(dname, 1)
             gkeys = [k for k in ns if k.startswith("grp")]
@@ -208,13 +217,21 @@ class World:
                     pass
             self.drivers[dname] = cls(router=self.router)
 
-    def _handler(self, hi: int, h: dict):
+    @staticmethod
+    def _same_shape(a: dict, b: dict) -> bool:
+        return all(a[k] == b[k] for k in ("ev", "coro", "veto", "refresh"))
+
+    def _handler_group(self, his: List[int], listform: bool):
+        """one method serving the entries `his` (same event type and behaviour, different elements)"""
         world = self
-        src = self.edefs[(h["v"], h["e"])]
-        kind = self.dep["vecs"][h["v"] - 1]["kind"]
+        hs = self.dep["hs"]
+        h = hs[his[0] - 1]
+        by_def = {id(self.edefs[(hs[i - 1]["v"], hs[i - 1]["e"])]): i for i in his}
 
         def record(event, late):
             el = event.element
+            hi = by_def.get(id(vars(el).get("_definition")), his[0])
+            kind = world.dep["vecs"][hs[hi - 1]["v"] - 1]["kind"]
             cur = vars(el).get("_value", None)
             rec = {"h": hi, "ev": h["ev"], "seen": abst(kind, cur),
                    "req": abst(kind, getattr(event, "new_value", None)) if h["ev"] == "W" else NONE,
@@ -232,8 +249,13 @@ class World:
         else:
             def handler(self, event):
                 record(event, False)
-        handler.__name__ = "h%03d" % hi
-        return DE.on(src, EV[h["ev"]])(handler)
+        handler.__name__ = "h%03d" % his[0]
+        srcs = [self.edefs[(hs[i - 1]["v"], hs[i - 1]["e"])] for i in his]
+        if listform or len(srcs) == 1:
+            return DE.on(srcs if len(srcs) > 1 else srcs[0], EV[h["ev"]])(handler)
+        for src in reversed(srcs):                 # stacked decorators, written top to bottom in entry order
+            handler = DE.on(src, EV[h["ev"]])(handler)
+        return handler
 
     # ---- access
     def vec(self, vi: int):
@@ -450,6 +472,18 @@ def random_dep(r) -> dict:
         if h["coro"]:
             h["veto"] = False
             h["refresh"] = NOREFRESH
+    # one handler attached to several elements: a copy of an entry for another element of the same device, sharing its method
+    extra = []
+    for h in hs:
+        extra.append(h)
+        if r.random() < 0.35:
+            dev = vecs[h["v"] - 1]["dev"]
+            cand = [(vi, ei) for vi, q in enumerate(vecs, start=1) if q["dev"] == dev and (h["refresh"] == NOREFRESH or q["kind"] == vecs[h["v"] - 1]["kind"])
+                    for ei in range(1, len(q["elems"]) + 1) if (vi, ei) != (h["v"], h["e"])]
+            if cand:
+                vi, ei = r.choice(cand)
+                extra.append({**h, "v": vi, "e": ei, "stack": True})
+    hs = extra
     return {"vecs": vecs, "grps": grps, "hs": hs, "devorder": devs, "val0": val0, "vst0": vst0, "ven0": ven0, "gen0": gen0,
             "inherit": {d: r.choice([1, 1, 2, 3]) for d in devs}}
 
@@ -535,7 +569,11 @@ def run_trace(dep: dict, ops_fn) -> dict:
     w = World(dep)
     try:
         ops = ops_fn(w)
-        evs = [w.apply(o) for o in ops]
+        evs = []
+        for o in ops:
+            if evs and evs[-1]["obs"]["ntasks"] >= 5 and o["o"] != "tick":
+                evs.append(w.apply({"o": "tick"}))        # the event loop gets to run: pending coroutine handlers execute
+            evs.append(w.apply(o))
         return {"dep": {k: dep[k] for k in ("vecs", "grps", "hs", "devorder", "val0", "vst0", "ven0", "gen0", "inherit") if k in dep}, "ev": evs}
     finally:
         w.close()
